@@ -328,12 +328,18 @@ func genC09(seed uint64, tier string, outdir string) *Report {
 	}
 	var texts []string
 	for k := 0; k < nCases; k++ {
-		sc := NewL2Scenario(seed*7919+uint64(k), k+1, false)
+		kk := k
+		fresh := func() *L2Scenario {
+			sc := NewL2Scenario(seed*7919+uint64(kk), kk+1, false)
+			c := sc.Case
+			// also watch a bridged denom that is never deposited and an unknown one
+			c.Track.Denoms = append(c.Track.Denoms, "l2/0000000000000000000000000000000000000000000000000000000000000000", "ufoo")
+			c.Bals, c.Sups, c.Pairs = nil, nil, nil
+			c.Snapshot()
+			return sc
+		}
+		sc := fresh()
 		e, r, c := sc.Env, sc.R, sc.Case
-		// also watch a bridged denom that is never deposited and an unknown one
-		c.Track.Denoms = append(c.Track.Denoms, "l2/0000000000000000000000000000000000000000000000000000000000000000", "ufoo")
-		c.Bals, c.Sups, c.Pairs = nil, nil, nil
-		c.Snapshot()
 		initObs := e.L2Obs(c.Track, ExecResult{OK: true})
 		wOK, wErr, refunded := false, false, false
 		for i := 0; i < length; i++ {
@@ -518,7 +524,9 @@ func genC09(seed uint64, tier string, outdir string) *Report {
 				}
 			}
 		}
+		nv := len(rep.Violations)
 		c09Check(rep, c, initObs)
+		shrinkL2Violations(rep, nv, c, l2Replayer{Fresh: fresh, Monitor: c09Check})
 		rep.Ops += len(c.Ops)
 		rep.CountCase(strings.Join(opsCoq(c.Ops), "\n"), wOK && wErr && refunded)
 		if k == 0 {
@@ -535,7 +543,9 @@ func genC09(seed uint64, tier string, outdir string) *Report {
 		nFault, fLen = 80, 80
 	}
 	for k := 0; k < nFault; k++ {
-		sc := NewL2Scenario(seed*104729+uint64(k), 100000+k, true)
+		kk := k
+		fresh := func() *L2Scenario { return NewL2Scenario(seed*104729+uint64(kk), 100000+kk, true) }
+		sc := fresh()
 		e, r, c := sc.Env, sc.R, sc.Case
 		initObs := e.L2Obs(c.Track, ExecResult{OK: true})
 		for i := 0; i < fLen; i++ {
@@ -546,17 +556,14 @@ func genC09(seed uint64, tier string, outdir string) *Report {
 				amt := big.NewInt(int64(1 + r.Intn(300)))
 				op := sc.Deposit(sc.SenderString(0), n1, to, r.Intn(2), amt, Hook{Kind: "none"})
 				if r.Chance(50) { // keeper calls of a positive deposit: 1 = MintCoins, 2 = SendCoinsFromModuleToAccount
-					*e.Fault = FaultPlan{FailAt: 1 + r.Intn(2), Panic: r.Bool()}
-				}
-				c.Do(op)
-				if e.Fault.FailAt != 0 && !e.Fault.Disabled {
+					op.FaultAt, op.FaultPanic = 1+r.Intn(2), r.Bool()
 					kind := "error"
-					if e.Fault.Panic {
+					if op.FaultPanic {
 						kind = "panic"
 					}
-					rep.Hist(fmt.Sprintf("fault:%s@%d", kind, e.Fault.FailAt))
+					rep.Hist(fmt.Sprintf("fault:%s@%d", kind, op.FaultAt))
 				}
-				*e.Fault = FaultPlan{Disabled: true}
+				doL2Op(c, op)
 			case 1:
 				from, to := uint64(1+r.Intn(6)), uint64(1+r.Intn(6))
 				d := sc.L2Denoms[r.Intn(2)]
@@ -569,7 +576,9 @@ func genC09(seed uint64, tier string, outdir string) *Report {
 				c.Do(L2Op{Kind: "withdraw", Sender: u.Str, To: sc.L1Addrs[0], Denom: d, Amt: amt})
 			}
 		}
+		nv := len(rep.Violations)
 		c09Check(rep, c, initObs)
+		shrinkL2Violations(rep, nv, c, l2Replayer{Fresh: fresh, Monitor: c09Check})
 		rep.Ops += len(c.Ops)
 		rep.CountCase(strings.Join(opsCoq(c.Ops), "\n"), true)
 	}
